@@ -118,8 +118,13 @@ public:
         sp_->copyToReals(b, s2);
         return b[0] > a[0] && std::min(a[1], b[1]) <= yhi && std::max(a[1], b[1]) >= ylo;
     }
+    // deterministic non-termination guard: a routine that asks more than `budget` motions is stopped by an exception
+    mutable unsigned long asked = 0;
+    unsigned long budget = ~0UL;   // set to 150000 for ropeShortcutPath under a non-additive objective only (known livelock, F173)
     bool checkMotion(const ob::State *s1, const ob::State *s2) const override
     {
+        if (++asked > budget)
+            throw std::runtime_error("checkMotion budget exceeded");
         g_inCm = true;
         bool r = !wrongWay(s1, s2) && inner_.checkMotion(s1, s2);
         g_inCm = false;
@@ -688,9 +693,15 @@ int main()
                     auto Fv = [&](size_t k2) { auto v = vp::parseBits(a.at(k2)); if (!v) throw vp::ParseError("float"); return *v; };
                     double cost0 = p.cost(obj).value();
                     c.mv->log.clear();
+                    c.mv->asked = 0;
                     c.mv->rec = true;
                     int ret = -1;
                     const std::string &rt = a[0];
+                    {
+                        const std::string &on = t[2];
+                        const bool nonAdditive = on == "toll" || on == "tolli" || on == "step" || on == "stepi" || on == "checker" || on == "clear";
+                        c.mv->budget = (rt == "rope" && nonAdditive) ? 150000UL : ~0UL;
+                    }
                     if (rt == "reduce") ret = ps.reduceVertices(p, N(1), N(2), Fv(3));
                     else if (rt == "pshort") ret = ps.partialShortcutPath(p, N(1), N(2), Fv(3), Fv(4));
                     else if (rt == "collapse") ret = ps.collapseCloseVertices(p, N(1), N(2));
@@ -780,6 +791,12 @@ int main()
             std::string extra;
             int ret = -1;
             c.mv->log.clear();
+            c.mv->asked = 0;
+            {
+                const bool nonAdditive = objName == "toll" || objName == "tolli" || objName == "step" || objName == "stepi" || objName == "checker" ||
+                                         objName == "clear";
+                c.mv->budget = (rt == "rope" && nonAdditive) ? 150000UL : ~0UL;
+            }
             bool known = true;
             // pre-compute validSegmentCount for `interp` (oracle for the model)
             if (!rnd && rt == "interp")
@@ -998,7 +1015,13 @@ int main()
         }
         catch (const std::exception &e)
         {
-            std::cout << "bad-op\n";
+            c.mv->rec = false;
+            g_inCm = false;
+            vp::g_draws = vp::DrawScript();
+            if (std::string(e.what()) == "checkMotion budget exceeded")
+                std::cout << "budget-exceeded\n";
+            else
+                std::cout << "bad-op\n";
         }
     }
     return 0;
